@@ -32,7 +32,8 @@ ASSUMPTIONS = ["static stores during the session; both sides honest; one sender 
                "a timeout within the deadline is taken as a deadlock; completion of all attempts as termination"]
 TRUSTED = ["modelled not verified: futures-channel Sender::poll_ready/poll_flush parking, tokio select! arm choice, QUIC transport replaced by mpsc"]
 RULE = ("quick: for c = 0..8 the boundary volumes on both sides (n-1/n/n+3 operations around n = c), mixed with overlapping prefixes, two-author sides and "
-        "one-sided volumes; predicted-deadlock cases limited to 8 (each costs one deadline); thorough: full grid c = 0..8 x volumes 0..c+3 per side "
+        "one-sided volumes; predicted-deadlock cases limited to 8 (each costs one deadline); + 5 long / pruned-prefix cases (a log of 100 with 0..79 pruned "
+        "to an empty peer, prefixes of 64..300, ranges of 129..300 entries, c = 1..8, one side within c); thorough: full grid c = 0..8 x volumes 0..c+3 per side "
         "+ 150 random multi-author cases. non-trivial = at least one side has to send c or more sync-phase messages")
 
 
